@@ -3,18 +3,30 @@ from checks.raft_common import *
 
 META = dict(
     engine="coq+hx_raft",
-    technique="Coq: executable model of raft.rs evaluated on fault-free schedules (vm_compute / reflective exploration, bounds in the statements); "
+    technique="Coq: executable model of raft.rs; induction over the list of appended payloads on a symbolic steady state (one append round evaluated / explored symbolically) for the oldest-first and the per-channel-FIFO schedules; "
+              "vm_compute / reflective exhaustive exploration for the bounded statements; "
               "timed fault-free simulation of the real raft.rs under a virtual clock with the configured timeouts, replayed event by event on the extracted model",
-    level_text="Machine-checked for the model, partial with respect to the unbounded property: the statements pinned in coq/Props/C30.v (cluster sizes, schedules and number of appended "
-               "entries are written in each statement) say that a fault-free run elects exactly one leader and ends with every appended entry present and committed on every node: for 3 nodes EVERY interleaving of the deliveries (election by node 0's timer, two appends, a heartbeat round; reflective exhaustive exploration with a proved soundness lemma), for 3 and 5 nodes the oldest-first schedule. "
+    level_text="Machine-checked for the model, partial with respect to the full property (any cluster size, any fault-free schedule): the statements pinned in coq/Props/C30.v say that a fault-free run elects exactly one leader "
+               "and ends with every appended entry present and committed on every node. "
+               "(1) C30_fifo_unbounded_3_partial / C30_fifo_unbounded_5_partial: for 3 and for 5 nodes, for EVERY number of appended entries and every payload list, under oldest-first (FIFO) delivery until quiescence after each "
+               "scripted action (node 0's election timer, one ClientAppend per payload, a final heartbeat round; the schedule is a relation without fuel or bound): node 0 is the only leader, all others its followers, every log is exactly "
+               "the payloads in order in term 1, every commit index equals their number, nothing is in flight — proved by induction over the payload list with a steady-state invariant, for every revision of the election code; "
+               "C30_fifo_unbounded_3_run / _5_run: such a run exists for every payload list and is the run of one explicit event list; C30_fifo_election_safety: with the repaired election code these runs never have two leaders in a term. "
+               "(2) C30_channel_fifo_unbounded_3_partial: for 3 nodes, every number of appended entries and EVERY per-channel-FIFO interleaving of the deliveries of each round (messages between one pair of nodes in order, deliveries to different peers "
+               "in any order — one ordered queue per peer as in the real server), the same conclusion; the election round is covered for ALL interleavings (reflective exploration), the heartbeat round for ALL interleavings and an append round with symbolic log length / log / payload "
+               "for all per-channel-FIFO interleavings (tactic-driven exploration of the graph of symbolic states). "
+               "The partiality of (1) and (2): only sizes 3 and 5 resp. 3 (the round lemmas are proved per size, not for a symbolic size), appends only when nothing is in flight, and for an unbounded number of appends no interleaving in which a message "
+               "overtakes an older one of its own channel during an append round. "
+               "(3) bounded statements: for 3 nodes EVERY interleaving of the deliveries of one script (election, two appends, a heartbeat round; reflective exhaustive exploration with a proved soundness lemma); 3 and 5 nodes FIFO with two appends. "
                "On the real code every run simulates healthy 3- and 5-node clusters with the configured timeouts (virtual clock, several tick granularities and message latencies, "
-               "1-3 client appends), requires convergence to one leader with equal, fully committed logs, and replays the recorded event list on the extracted model comparing the "
+               "1-6 client appends), requires convergence to one leader with equal, fully committed logs, and replays the recorded event list on the extracted model comparing the "
                "complete cluster state after every event.",
     design_ref="DESIGN.md §5 C30, C27–C30 common",
-    level_note="Liveness for arbitrary cluster sizes/schedules is not proved (partial). Real timers, HTTP transport and tokio scheduling are replaced by the virtual clock and an in-order network.",
+    level_note="Liveness for arbitrary cluster sizes and arbitrary fault-free schedules is not proved (partial): unbounded number of appends only for 3 and 5 nodes under FIFO delivery and for 3 nodes under per-channel-FIFO interleaving; all interleavings only for 3 nodes and two appends. "
+               "Real timers, HTTP transport and tokio scheduling are replaced by the virtual clock and an in-order network.",
 )
 
-RULE = ("timed fault-free simulations (election factor 1000 ms, heartbeat 1000 ms, term timeout 3000 ms; tick 10/50/100/250 ms; latency 0-2 rounds; 1-3 appends; 3 of 4 cases on 3 nodes, "
+RULE = ("timed fault-free simulations (election factor 1000 ms, heartbeat 1000 ms, term timeout 3000 ms; tick 10/50/100/250 ms; latency 0-2 rounds; 1-6 appends; 3 of 4 cases on 3 nodes, "
         "1 of 4 on 5 nodes) must converge; the recorded abstract event list (every process() call that changed something with the elapsed values the implementation saw, every delivery) "
         "is replayed with forced timers on the implementation and on the extracted model and compared per event; plus random adversarial lists for the model tie")
 
@@ -22,9 +34,9 @@ RULE = ("timed fault-free simulations (election factor 1000 ms, heartbeat 1000 m
 def run(ctx):
     s = seed_of(ctx, "C30")
     return run_property(ctx, "C30", RULE,
-                        quick=[("live", ["live", "--seed", s, "--n", "60"]),
+                        quick=[("live", ["live", "--seed", s, "--n", "60", "--max-appends", "6"]),
                                ("random", ["gen", "--seed", s, "--n", "150", "--len", "60"])],
-                        thorough=[("live", ["live", "--seed", s, "--n", "3000"]),
+                        thorough=[("live", ["live", "--seed", s, "--n", "3000", "--max-appends", "6"]),
                                   ("random", ["gen", "--seed", s, "--n", "5000", "--len", "80"])])
 
 
